@@ -193,8 +193,23 @@ pub fn is_scalar(v: u32) -> bool {
 
 /// Every cell of every layer holds a scalar value; every engine-built string is valid UTF-8.
 pub fn check_unicode(prop: &str, buf: &Buffer, at: usize, what: &str) -> Option<Violation> {
+    check_unicode_opt(prop, buf, at, what, true, usize::MAX)
+}
+
+/// Cheap signature of the font table: glyph tables are only re-scanned when it changes.
+pub fn font_sig(buf: &Buffer) -> u64 {
+    let mut h = 0u64;
+    for (slot, f) in buf.font_iter() {
+        h ^= crate::rng::mix(crate::rng::mix(*slot as u64, f.glyphs.len() as u64), crate::rng::mix(u64::from(f.checksum), crate::rng::fnv(&f.name)));
+    }
+    h
+}
+
+/// `last_rows`: scan only that many rows at the end of each layer (the rows a terminal can still change).
+pub fn check_unicode_opt(prop: &str, buf: &Buffer, at: usize, what: &str, fonts: bool, last_rows: usize) -> Option<Violation> {
     for (li, layer) in buf.layers.iter().enumerate() {
-        for (y, line) in layer.lines.iter().enumerate() {
+        let skip = layer.lines.len().saturating_sub(last_rows);
+        for (y, line) in layer.lines.iter().enumerate().skip(skip) {
             for (x, c) in line.chars.iter().enumerate() {
                 let v = c.ch as u32;
                 if !is_scalar(v) {
@@ -213,13 +228,11 @@ pub fn check_unicode(prop: &str, buf: &Buffer, at: usize, what: &str) -> Option<
             }
         }
     }
-    for (slot, f) in buf.font_iter() {
-        if std::str::from_utf8(f.name.as_bytes()).is_err() {
-            return Some(inv(prop, "invalid_utf8", format!("{what}: name of font {slot} is not valid UTF-8"), at));
-        }
-        // glyph table keys are chars too
-        if f.length > 0x11_0000 {
-            return Some(inv(prop, "invalid_char", format!("{what}: font {slot} claims {} glyphs, more than there are scalar values", f.length), at));
+    if fonts {
+        for (slot, f) in buf.font_iter() {
+            if let Some(v) = check_font(prop, f, at, &format!("{what}: font {slot}")) {
+                return Some(v);
+            }
         }
     }
     if let Some(sauce) = buf.get_sauce() {
@@ -238,10 +251,30 @@ pub fn check_unicode(prop: &str, buf: &Buffer, at: usize, what: &str) -> Option<
     None
 }
 
+/// A font's name is a string the engine built and its glyph table is keyed by `char`.
+pub fn check_font(prop: &str, f: &icy_engine::BitFont, at: usize, what: &str) -> Option<Violation> {
+    if std::str::from_utf8(f.name.as_bytes()).is_err() {
+        return Some(inv(prop, "invalid_utf8", format!("{what}: name is not valid UTF-8"), at));
+    }
+    // the table is a hash map: report the smallest offending key so that the message does not depend on iteration order
+    let mut bad: Option<u32> = None;
+    let mut n = 0usize;
+    for k in f.glyphs.keys() {
+        let v = *k as u32;
+        if !is_scalar(v) {
+            n += 1;
+            bad = Some(bad.map_or(v, |b| b.min(v)));
+        }
+    }
+    bad.map(|v| inv(prop, "invalid_char", format!("{what}: {n} glyph table keys are not Unicode scalar values, smallest U+{v:X}"), at))
+}
+
 pub struct UnicodeMonitor {
     reach: Reach,
     every: u64,
     n: u64,
+    fonts_seen: u64,
+    string_len: usize,
 }
 
 impl UnicodeMonitor {
@@ -250,6 +283,8 @@ impl UnicodeMonitor {
             reach: Reach::new(t),
             every: t.cfg.monitor_every.max(1),
             n: 0,
+            fonts_seen: 0,
+            string_len: 0,
         }
     }
     fn parser_strings(s: &Session, at: usize) -> Option<Violation> {
@@ -258,6 +293,16 @@ impl UnicodeMonitor {
                 if std::str::from_utf8(st.as_bytes()).is_err() {
                     return Some(inv("C10", "invalid_utf8", format!("{name} is not valid UTF-8"), at));
                 }
+            }
+            // stored macro bodies (hash map: report the smallest offending id)
+            let mut bad: Option<usize> = None;
+            for (id, body) in p.verif_macros() {
+                if std::str::from_utf8(body.as_bytes()).is_err() {
+                    bad = Some(bad.map_or(*id, |b| b.min(*id)));
+                }
+            }
+            if let Some(id) = bad {
+                return Some(inv("C10", "invalid_utf8", format!("stored body of macro {id} is not valid UTF-8"), at));
             }
             for l in &p.hyper_links {
                 if let Some(u) = &l.url {
@@ -277,15 +322,33 @@ impl Monitor for UnicodeMonitor {
         let EvResult::Byte(b, _) = r else { return None };
         self.n += 1;
         // after every final byte of a control function (fills, numeric prints land here) and every k-th byte
-        let is_final = (0x40..=0x7e).contains(b);
-        if !(is_final || self.n % self.every == 0) {
+        // ... but not while the byte only lengthened a pending DCS/OSC/APS string: nothing else changes
+        // until its terminator (which shortens the string again and is scanned)
+        let mut in_string = false;
+        if let ParserBox::Ansi(p) = &s.parser {
+            in_string = p.parse_string.len() > self.string_len;
+            self.string_len = p.parse_string.len();
+        }
+        let is_final = (0x40..=0x7e).contains(b) && !in_string;
+        let periodic = self.n % self.every == 0;
+        if !(is_final || periodic) {
             return None;
         }
         stats.count("unicode_scans");
-        if s.buf.layers.iter().map(|l| l.lines.len()).sum::<usize>() > 3000 && self.n % 64 != 0 {
-            return None;
+        // a terminal only changes the rows it shows: scans after control functions look at those; the
+        // periodic scans and the one at the end of the stream look at the whole scrollback
+        let rows = if periodic && (s.buf.layers.iter().map(|l| l.lines.len()).sum::<usize>() <= 400 || self.n % 64 == 0) {
+            usize::MAX
+        } else {
+            s.buf.terminal_state.get_height().max(1) as usize + 2
+        };
+        let sig = font_sig(&s.buf);
+        let fonts = sig != self.fonts_seen;
+        self.fonts_seen = sig;
+        if fonts {
+            stats.count("unicode_font_scans");
         }
-        check_unicode("C10", &s.buf, at, "terminal session").or_else(|| Self::parser_strings(s, at))
+        check_unicode_opt("C10", &s.buf, at, "terminal session", fonts, rows).or_else(|| Self::parser_strings(s, at))
     }
     fn at_end(&mut self, s: &Session, at: usize, stats: &mut RunStats) -> Option<Violation> {
         stats.count("unicode_scans");
